@@ -479,6 +479,11 @@ pub enum Step {
     /// try_map: Ok(f x) when p x, else Err; only as the LAST step of a program (applied by the
     /// runner, see `run_program`; rows are reported as Some(v) / None)
     TryMap(EFun, PFun),
+    /// the debug taps of ironbeam::testing::PCollectionDebugExt (identity on any shape):
+    /// 0 debug_inspect, 1 debug_inspect_with (a counting closure), 2 debug_count, k >= 3 debug_sample(k - 3)
+    Debug(usize),
+    /// apply_transform::<Val>(Arc::new(CustomMapOp(f))): a user-written DynOp with default hints
+    CustomMap(EFun),
 }
 
 #[derive(Clone, Debug, PartialEq)]
@@ -562,6 +567,8 @@ pub fn parse_step(j: &Value) -> R<Step> {
             Step::MapWithSideMap(prs, small(d)?)
         }
         Some(("try_map", [f, p])) => Step::TryMap(parse_efun(f)?, parse_pfun(p)?),
+        Some(("debug", [k])) => Step::Debug(nat(k)?),
+        Some(("custom_map", [f])) => Step::CustomMap(parse_efun(f)?),
         Some(("join", [k, rs, rd])) => {
             let kind = match k.as_str() {
                 Some("inner") => JoinKind::Inner,
@@ -613,6 +620,8 @@ pub fn step_json(s: &Step) -> Value {
         }]),
         Step::MapWithSideMap(prs, d) => json!(["map_with_side_map", vals_json(prs), d]),
         Step::TryMap(f, p) => json!(["try_map", efun_json(f), pfun_json(p)]),
+        Step::Debug(k) => json!(["debug", k]),
+        Step::CustomMap(f) => json!(["custom_map", efun_json(f)]),
     }
 }
 pub fn steps_json(s: &[Step]) -> Value {
@@ -681,9 +690,11 @@ pub fn step_shape(s: &Step, t: Shape) -> R<Shape> {
     let need = |ok: bool, out: Shape| if ok { Ok(out) } else { Err(format!("ill-typed step {s:?} on {t:?}")) };
     match s {
         Step::Map(_) | Step::KeyBy(_) | Step::MapBatches(..) | Step::CombineGlobally(..)
-        | Step::MapWithSide(..) | Step::MapWithSideMap(..) | Step::TryMap(..) if t != U => {
+        | Step::MapWithSide(..) | Step::MapWithSideMap(..) | Step::TryMap(..) | Step::CustomMap(_) if t != U => {
             need(false, U)
         }
+        Step::CustomMap(_) => Ok(U),
+        Step::Debug(_) => Ok(t),
         Step::MapWithSide(..) | Step::MapWithSideMap(..) => Ok(U),
         // the element type becomes Result<Val, String>: nothing may follow (see steps_shape)
         Step::TryMap(..) => Ok(U),
@@ -744,6 +755,7 @@ pub fn elementwise_step(s: &Step) -> bool {
         | Step::MapValues(_) | Step::FilterValues(_) | Step::MapValuesW(_) | Step::FilterValuesW(_)
         | Step::MapValuesBack(_) | Step::GroupsToList => true,
         Step::MapWithSide(..) | Step::FilterWithSide(..) | Step::MapWithSideMap(..) | Step::TryMap(..) => true,
+        Step::Debug(_) | Step::CustomMap(_) => true,
         Step::MapBatches(_, BFun::Each(_) | BFun::Dup) | Step::MapValuesBatches(_, BFun::Each(_)) => true,
         _ => false,
     }
@@ -795,7 +807,7 @@ fn vo_cost(s: &Step) -> Option<Vec<Option<u8>>> {
         Step::MapValuesBatches(..) => vec![Some(2)],
         Step::Map(_) | Step::Filter(_) | Step::FlatMap(_) | Step::KeyBy(_) | Step::Unkey
         | Step::MapBatches(..) | Step::GroupsToList | Step::MapWithSide(..) | Step::FilterWithSide(..)
-        | Step::MapWithSideMap(..) | Step::TryMap(..) => vec![None],
+        | Step::MapWithSideMap(..) | Step::TryMap(..) | Step::Debug(_) | Step::CustomMap(_) => vec![None],
         _ => return None,
     })
 }
@@ -979,6 +991,26 @@ fn filt<T: Row>(c: PCollection<T>, p: &PFun) -> PCollection<T> {
         pf(&p, &r.to_val())
     })
 }
+/// a user-written stateless operator (default capability hints): maps `ef f` over Vec<Val>
+pub struct CustomMapOp(pub EFun);
+impl ironbeam::DynOp for CustomMapOp {
+    fn apply(&self, input: ironbeam::Partition) -> ironbeam::Partition {
+        let v = input.downcast::<Vec<Val>>().expect("CustomMapOp input type");
+        Box::new(v.iter().map(|x| ef(&self.0, x)).collect::<Vec<Val>>()) as ironbeam::Partition
+    }
+}
+static DEBUG_SEEN: AtomicU64 = AtomicU64::new(0);
+fn tap<T: Row + std::fmt::Debug>(c: PCollection<T>, k: usize) -> PCollection<T> {
+    use ironbeam::testing::PCollectionDebugExt;
+    match k {
+        0 => c.debug_inspect("l"),
+        1 => c.debug_inspect_with("l", |_| {
+            DEBUG_SEEN.fetch_add(1, Ordering::Relaxed);
+        }),
+        2 => c.debug_count("l"),
+        _ => c.debug_sample(k - 3, "l"),
+    }
+}
 fn filt_side<T: Row>(c: PCollection<T>, side: &[Val], q: &SPred) -> PCollection<T> {
     let q = q.clone();
     c.filter_with_side(&side_vec(side.to_vec()), move |r: &T, s: &[Val]| {
@@ -1084,6 +1116,12 @@ pub fn apply_step(p: &Pipeline, c: Coll, s: &Step) -> R<Coll> {
                 m.get(x).cloned().unwrap_or(Val::Int(d))
             }))
         }
+        (Step::CustomMap(f), U(c)) => U(c.apply_transform::<Val>(std::sync::Arc::new(CustomMapOp(f.clone())))),
+        (Step::Debug(k), U(c)) => U(tap(c, *k)),
+        (Step::Debug(k), KV(c)) => KV(tap(c, *k)),
+        (Step::Debug(k), KG(c)) => KG(tap(c, *k)),
+        (Step::Debug(k), KW(c)) => KW(tap(c, *k)),
+        (Step::Debug(k), L(c)) => L(tap(c, *k)),
         (Step::FilterWithSide(side, q), U(c)) => U(filt_side(c, side, q)),
         (Step::FilterWithSide(side, q), KV(c)) => KV(filt_side(c, side, q)),
         (Step::FilterWithSide(side, q), KG(c)) => KG(filt_side(c, side, q)),
@@ -1412,9 +1450,23 @@ fn finish_program(p: &Pipeline, src: &Src, steps: &[Step], dir: &str, file: &mut
         (Some((f, pr)), Coll::U(c)) => {
             let r = c.try_map(move |x: &Val| {
                 perturb();
-                if pf(&pr, x) { Ok(ef(&f, x)) } else { Err("e".to_string()) }
+                if pf(&pr, x) { Ok(ef(&f, x)) } else { Err(format!("e{}", val_json(x))) }
             });
-            if fail_fast { rows_json(r.collect_fail_fast()) } else { collect(r, mode) }
+            if fail_fast {
+                match r.collect_fail_fast() {
+                    Ok(rows) => rows_json(Ok(rows)),
+                    Err(e) => {
+                        // "element failed: e<json of the element>": report WHICH element failed
+                        let m = format!("{e:#}");
+                        match m.split_once("element failed: e").and_then(|(_, j)| serde_json::from_str::<Value>(j).ok()) {
+                            Some(el) => json!(["err", "fail_fast", el]),
+                            None => rows_json::<Val>(Err(e)),
+                        }
+                    }
+                }
+            } else {
+                collect(r, mode)
+            }
         }
         _ => json!(["invalid"]),
     }
@@ -1704,6 +1756,8 @@ pub fn d_step(s: &Step, rows: &[Val]) -> Vec<Val> {
         Step::FilterWithSide(side, q) => rows.iter().filter(|x| spn(q, side, x)).cloned().collect(),
         Step::MapWithSideMap(prs, d) => rows.iter().map(|x| side_lookup(prs, *d, x)).collect(),
         Step::TryMap(f, p) => rows.iter().map(|x| if pf(p, x) { some(ef(f, x)) } else { Val::None }).collect(),
+        Step::Debug(_) => rows.to_vec(),
+        Step::CustomMap(f) => rows.iter().map(|x| ef(f, x)).collect(),
     }
 }
 pub fn d_steps(steps: &[Step], rows: &[Val]) -> Vec<Val> {
@@ -1803,15 +1857,17 @@ pub struct GenOpts {
     pub header: bool,
     /// side-input steps (map_with_side, filter_with_side, map_with_side_map)
     pub side_inputs: bool,
+    /// debug taps and the user-written custom map operator
+    pub taps: bool,
 }
 impl GenOpts {
     pub fn elementwise() -> Self {
         GenOpts { barriers: false, joins: false, odd_batches: false, retype: true,
-                  reorder_class: false, empty_minmax: false, header: false, side_inputs: false }
+                  reorder_class: false, empty_minmax: false, header: false, side_inputs: false, taps: false }
     }
     pub fn all() -> Self {
         GenOpts { barriers: true, joins: true, odd_batches: false, retype: true,
-                  reorder_class: false, empty_minmax: false, header: false, side_inputs: false }
+                  reorder_class: false, empty_minmax: false, header: false, side_inputs: false, taps: false }
     }
 }
 
@@ -2061,6 +2117,17 @@ pub fn gen_step(rng: &mut SplitMix64, sim: &Sim, o: &GenOpts, parts: usize) -> O
     for _ in 0..12 {
         let sample = sim.sample();
         let vsample = sample.map(vsnd);
+        if o.taps && rng.chance(1, 9) {
+            let s = if sim.shape == Shape::U && rng.chance(1, 2) {
+                Step::CustomMap(gen_efun(rng, sample, 0))
+            } else {
+                Step::Debug(*rng.pick(&[0usize, 1, 2, 3, 4, 13, 14, 40]))
+            };
+            if let Some(next) = sim.step(&s) {
+                return Some((s, next));
+            }
+            continue;
+        }
         if o.side_inputs && rng.chance(1, 7) {
             let s = gen_side_step(rng, sim);
             if let Some(next) = sim.step(&s) {
@@ -2761,4 +2828,74 @@ pub fn gen_branch(rng: &mut SplitMix64, src: &Src, o: &GenOpts, parts: usize)
         return None;
     }
     Some((prefix, a, b))
+}
+
+/// (source, steps, partitions): TopK over NON-monotone data (shuffled, descending, zig-zag) with
+/// every key's values spread over several partitions and more values than k per partition pair:
+/// top_k_per_key, combine_values(topk), combine_globally(topk) lifted / unlifted with several
+/// fan-outs; k in {1,2,3,5}, partitions 2..=6.
+pub fn topk_cases(rng: &mut SplitMix64, full: bool) -> Vec<(Src, Vec<Step>, usize)> {
+    let mut out = vec![];
+    let mut n = 0usize;
+    for parts in 2..=6usize {
+        for k in [1usize, 2, 3, 5] {
+            for order in 0..3 {
+                let len = 4 * parts + (k + order) % 3;
+                let mut vals: Vec<i64> = (0..len as i64).map(|i| i * 3 % 17 + i).collect();
+                match order {
+                    0 => {
+                        for i in (1..vals.len()).rev() {
+                            vals.swap(i, rng.below(i as u64 + 1) as usize);
+                        }
+                    }
+                    1 => {
+                        vals.sort();
+                        vals.reverse();
+                    }
+                    _ => {
+                        // zig-zag: large, small, large, ...
+                        vals.sort();
+                        let (lo, hi) = vals.split_at(vals.len() / 2);
+                        vals = hi.iter().rev().zip(lo.iter()).flat_map(|(a, b)| [*a, *b]).collect();
+                    }
+                }
+                let kv: Vec<Val> = vals.iter().enumerate()
+                    .map(|(i, v)| pair(Val::Int((i % 2) as i64), Val::Int(*v))).collect();
+                let u: Vec<Val> = vals.iter().map(|v| Val::Int(*v)).collect();
+                n += 1;
+                let fan = [None, Some(2), Some(0), Some(3)][n % 4];
+                let mut progs: Vec<(Shape, Vec<Step>)> = vec![
+                    (Shape::KV, vec![Step::TopKPerKey(k)]),
+                    (Shape::U, vec![Step::CombineGlobally(Cid::TopK(k), n % 2 == 0, fan)]),
+                ];
+                if full || n % 3 == 0 {
+                    progs.push((Shape::KV, vec![Step::GroupByKey, Step::CombineValuesLifted(Cid::TopK(k))]));
+                    progs.push((Shape::U, vec![Step::CombineGlobally(Cid::TopK(k), n % 2 == 1, Some(parts))]));
+                }
+                for (shape, steps) in progs {
+                    let data = if shape == Shape::KV { kv.clone() } else { u.clone() };
+                    out.push((Src::Vec(shape, data), steps, parts));
+                }
+            }
+        }
+    }
+    out
+}
+
+/// element-wise chains of more than 64 consecutive stateless steps (cheap operators, filters that
+/// keep everything): lengths 65, 70, 130 (and 64 / 66 in the thorough tier)
+pub fn long_chains(full: bool) -> Vec<Vec<Step>> {
+    let lens: Vec<usize> = if full { vec![63, 64, 65, 66, 70, 128, 129, 130] } else { vec![65, 70, 130] };
+    lens.into_iter()
+        .map(|n| {
+            (0..n)
+                .map(|i| match i % 5 {
+                    0 | 3 => Step::Map(EFun::Add(1)),
+                    1 => Step::CustomMap(EFun::Add(1)),
+                    2 => Step::Filter(PFun::True),
+                    _ => Step::Map(EFun::Mul(-1)),
+                })
+                .collect()
+        })
+        .collect()
 }
